@@ -43,6 +43,7 @@ static void exec_op(Script& me, const std::vector<std::string>& op) {
     long ret = 0; int en = 0; errno = 0;
     auto O = [&](int i) -> Obj& { return objs.at(op[i]); };
     if (k == "sleep") { ret = photon::thread_usleep(TO(op[1])); en = ret < 0 ? errno : 0; }
+    else if (k == "sleepd") { ret = photon::thread_usleep_defer(TO(op[1]), [](void*) {}, nullptr); en = ret < 0 ? errno : 0; }   // public deferred sleep
     else if (k == "yield") { ret = photon::thread_yield(); }
     else if (k == "intr") { photon::thread_interrupt(scripts.at(op[1]).th, atoi(op[2].c_str())); }
     else if (k == "shutdown") { photon::thread_shutdown(scripts.at(op[1]).th); }
